@@ -1,4 +1,4 @@
 SPECIFICATION Spec
-CONSTANTS MaxLen = 5 Variant = "doc"
-INVARIANTS Inv Belief
+CONSTANTS MaxLen = 6 Variant = "doc"
+INVARIANTS Inv Belief Protocol
 CHECK_DEADLOCK FALSE
